@@ -212,7 +212,8 @@ def choose_read(eng, gene, sample, cfg, V, prefix=""):
                 p = pos + i
                 ref = gene[p]
                 # three choices at the positions of the catalogued MNP, two elsewhere
-                k = eng.choose(V["b"][qi], range(3 if p in alt_at else 2))
+                k = eng.choose(V["b"][qi], range(3 if p in alt_at else
+                                                 (1 if cfg.get("refonly") else 2)))
                 if p not in alt_at and k == 1:
                     k = 2
                 if k == 0:
